@@ -265,10 +265,15 @@ func RunPath(mainpkg *ssa.Package, sizes types.Sizes, entry string, prefix []Dec
 	}()
 	if status == "panic" && !Cfg.NoPanicViol {
 		v := Violation{Label: "no-panic", Kind: "panic", Detail: detail, Decisions: decisionsString(P.Prefix)}
-		if r, m := S.Check(nil, sortedInputs()); r.String() == "sat" {
+		r, m := confirmSat(nil, sortedInputs())
+		if r.String() == "sat" {
 			v.Model = m
 		}
-		recordViolation(v)
+		if r.String() == "unsat" {
+			status, detail = "infeasible", "panic path infeasible under precise arithmetic"
+		} else {
+			recordViolation(v)
+		}
 	}
 	if status == "deadlock" {
 		v := Violation{Label: "no-deadlock", Kind: "deadlock", Detail: detail, Decisions: decisionsString(P.Prefix)}
